@@ -139,6 +139,11 @@ def lp_in_order(types):
 
 
 def ref_lp(wire):
+    # with repeated / out-of-order headers it is not stated which header counts, so their interiors are not read at all
+    b0, vs0, ve0 = rc.outer(bytes(wire), rc.L['LP_PACKET'])
+    types0 = [k[0] for k in rc.children(b0, vs0, ve0)]
+    if not lp_in_order(types0):
+        return {'types': types0, 'fragmented': False}
     r = rc.strict_lp(wire)
     if r['fragmented']:
         raise rc.Reject('fragmented')
@@ -246,7 +251,7 @@ def judge(ctx, dec, wire, klass, wellformed=False, steps=True):
         return
     if ref_rej is not None:
         if ref_rej.reason in rc.STATED_REASONS:
-            if ref_rej.reason in ('overrun', 'truncated') and ref_rej.where == 'model':
+            if ref_rej.reason == 'overrun' and ref_rej.where == 'model':
                 # a field of a TLV container (not a Name component) extends past its parent
                 mech = 'inner-overrun-accepted'
             else:
